@@ -362,7 +362,7 @@ def run(ctx):
             raise MachineryError("tour covered %d of %d transitions" % (len(covered), g.n_edges()))
         if share < 1.0:
             tour = rng.sample(tour, max(1, int(len(tour) * share)))
-        walks = g.random_walks(40 if not thorough else 600, 25, ctx.seed + 3)
+        walks = g.random_walks(40 if not thorough else 300, 25, ctx.seed + 3)
         gstats[name] = {"states": g.n_states(), "transitions": g.n_edges(), "tour_paths_replayed": len(tour),
                         "tour_share": share, "walks": len(walks)}
         for kind, plist in (("tour", tour), ("walk", walks)):
